@@ -138,6 +138,19 @@ func c06States() []simdjson.VerifS1State {
 	return out
 }
 
+// c06AtDepth calls f below d stack frames of about 150 bytes each.
+//
+//go:noinline
+func c06AtDepth(d int, pad *[14]uint64, f func()) uint64 {
+	var local [14]uint64
+	local[d%14] = uint64(d) + pad[(d+1)%14]
+	if d == 0 {
+		f()
+		return local[0]
+	}
+	return c06AtDepth(d-1, &local, f) + local[d%14]
+}
+
 func c06Body(w *W) {
 	if !hasAVX512 {
 		w.Note("this CPU has no AVX-512F: only one kernel family can run; nothing compared")
@@ -154,6 +167,63 @@ func c06Body(w *W) {
 		c.diff(in, true, "C06-mutation-"+name)
 	})
 	forEachNDInput(w, func(name string, text []byte) { c.diff(text, true, "C06-nd-"+name) })
+
+	// the same documents at every stack depth: a kernel call sits right where the goroutine
+	// stack has to grow for some depths; both kernel families must still agree (arguments that
+	// point into the stack have to survive the move)
+	w.Note("stack-depth sweep: 3 documents (one needing two index buffers) parsed with recycled objects by both kernel families on a fresh goroutine at every call depth 0..900 (about 150 bytes of stack per level, i.e. across the 8K..128K growth steps)")
+	depthDocs := [][]byte{[]byte(`{"a":[1,"x",true,null],"b":{"c":"d\n"}}`), append(append([]byte("["), bytes.Repeat([]byte(`"v",`), 900)...), `"w"]`...), []byte("{\"k\":1}\n[2,3]\n{\"z\":\"y\"}")}
+	ra, rb := make([]*simdjson.ParsedJson, len(depthDocs)), make([]*simdjson.ParsedJson, len(depthDocs))
+	for d := 0; d <= 900; d++ {
+		w.res.States++
+		if !w.Mine() || w.Expired() {
+			continue
+		}
+		for di, doc := range depthDocs {
+			nd := di == 2
+			bad := ""
+			for attempt := 0; attempt < 3; attempt++ {
+				var ea, eb error
+				var pa, pb *simdjson.ParsedJson
+				var xa, xb string
+				done := make(chan struct{})
+				go func() {
+					defer close(done)
+					var pad [14]uint64
+					c06AtDepth(d, &pad, func() {
+						pa, ea, xa = doParse(Cfg{true, true}, doc, ra[di], nd)
+						pb, eb, xb = doParse(Cfg{false, true}, doc, rb[di], nd)
+					})
+				}()
+				<-done
+				w.res.Validated++
+				if pa != nil {
+					ra[di] = pa
+				}
+				if pb != nil {
+					rb[di] = pb
+				}
+				switch {
+				case xa != "" || xb != "":
+					bad = fmt.Sprintf("panic: avx512=%q avx2=%q", xa, xb)
+				case ea != nil || eb != nil:
+					bad = fmt.Sprintf("valid document: AVX-512 kernels err=%v, AVX2 kernels err=%v", ea, eb)
+				case !sameTape(pa, pb):
+					bad = "both kernel families accept but tape or string buffer differ"
+				default:
+					bad = ""
+				}
+				if bad == "" {
+					break // agrees (a disagreement must repeat three times at this depth)
+				}
+			}
+			w.res.Transitions++
+			w.res.Evaluations++
+			if bad != "" {
+				w.Violate(Violation{Harness: "C06-stack-depth", Fingerprint: "C06/stack-depth", What: fmt.Sprintf("at call depth %d (three attempts on fresh goroutines): %s", d, bad), Case: append([]byte(nil), doc...), Config: map[bool]string{false: "Parse", true: "ParseND"}[nd]})
+			}
+		}
+	}
 
 	// kernel-level differential
 	states := c06States()
